@@ -65,7 +65,7 @@ class C18(World):
     rule = (
         "each run = one generated history (3-16 steps) on 1-2 cycle objects: solve(fluid, Te, Tc, dT_sh, dT_sc, eta, Q, ihx_gas_dt=0), "
         "build(cond) / build(evap) / build(both), dtcont / dt_diff_max assignment, metric reads, re-solve with new arguments, deliberately "
-        "failing solves; fluids 70 % mainstream refrigerants, 30 % any CoolProp fluid; temperatures inside [max(Ttriple,Tmin)+5 K, Tcrit-10 K] "
+        "failing solves; fluids 70 % mainstream refrigerants, 30 % any CoolProp fluid; temperatures inside [max(Ttriple,Tmin)+1 K, Tcrit-1 K] "
         "with any positive lift (>= 0.5 K, also smaller than superheat + subcooling).  distinct = distinct step list; non-trivial = >=1 successful solve followed by >=2 stream-set requests "
         "or a re-solve."
     )
@@ -106,7 +106,7 @@ class C18(World):
                 fl = "R134a"
                 lim = limits(fl)
             lo, tc, _ = lim
-            lo, hi = lo + 5.0, tc - 10.0
+            lo, hi = lo + 1.0, tc - 1.0
             # pressure floor on the evaporator side (bisection on an independent call): 1 kPa in the
             # "practical" swarm configuration, 10 Pa otherwise (below that the property library's own
             # flashes disagree with each other by more than the tolerances used here)
@@ -131,7 +131,7 @@ class C18(World):
             if hi - lo <= minlift + 1.0:
                 fl = "R134a"
                 lo, tc, _ = limits(fl)
-                lo, hi = lo + 5.0, tc - 10.0
+                lo, hi = lo + 1.0, tc - 1.0
             te = args.uniform(lo, max(lo, hi - minlift - 0.5))
             tcnd = args.uniform(min(te + minlift, hi), hi)
             if swarm["mainstream"] and args.random() < 0.25:
@@ -471,7 +471,7 @@ class C18(World):
                         probe("re_solve")
                     m.update(solved=True, args=a, first={}, pattern=[], metrics=None, n_cond=None, n_evap=None)
                     lim = limits(a["refrigerant"])
-                    in_domain = lim is not None and lim[0] + 5.0 - 0.011 <= a["Te"] + 273.15 and a["Tc"] + 273.15 <= lim[1] - 10.0 + 0.011 and a["Tc"] - a["Te"] >= 0.5 - 1e-9 and op in ("solve", "solve_variant")
+                    in_domain = lim is not None and lim[0] + 1.0 - 0.011 <= a["Te"] + 273.15 and a["Tc"] + 273.15 <= lim[1] - 1.0 + 0.011 and a["Tc"] - a["Te"] >= 0.5 - 1e-9 and op in ("solve", "solve_variant")
                     if in_domain:
                         try:
                             in_domain = CP.PropsSI("P", "T", a["Te"] + 273.15, "Q", 1, a["refrigerant"]) >= 10.0 * 0.999
